@@ -68,6 +68,9 @@ mod test;
 #[cfg(any(test, feature = "mock_time"))]
 pub mod mock_time;
 
+#[cfg(feature = "ironcalc_verif")]
+pub use crate::functions::Function;
+
 pub use locale::get_supported_locales;
 pub use model::get_milliseconds_since_epoch;
 pub use model::FmtSettings;
